@@ -40,7 +40,7 @@ theorem trimL_spec (b : Bytes) : ∀ (fuel val vend : Nat) (log : Log), val ≤ 
         intro N hN hl
         simp [hl]; omega
     · simp only [trimL, hlt, ↓reduceIte]
-      exact ⟨by omega, by omega, fun i a b => by omega, fun h => absurd h hlt, fun N _ h => h⟩
+      exact ⟨by omega, by omega, fun i a b => by omega, fun h => by first | exact h.elim | omega, fun N _ h => h⟩
 
 theorem trimR_spec (b : Bytes) : ∀ (fuel val vend : Nat) (log : Log), val ≤ vend → vend - val ≤ fuel →
     val ≤ (trimR b fuel val vend log).1 ∧ (trimR b fuel val vend log).1 ≤ vend ∧
@@ -74,7 +74,7 @@ theorem trimR_spec (b : Bytes) : ∀ (fuel val vend : Nat) (log : Log), val ≤ 
         intro N hN hl
         simp [hl]; omega
     · simp only [trimR, hlt, ↓reduceIte]
-      exact ⟨by omega, by omega, fun i a b => by omega, fun h => absurd h (by omega), fun N _ h => h⟩
+      exact ⟨by omega, by omega, fun i a b => by omega, fun h => by first | exact h.elim | omega, fun N _ h => h⟩
 
 theorem Toks.drop_spaces {b : Bytes} : ∀ (n i j : Nat) (o : Bytes), Toks b i j o → i + n ≤ j →
     (∀ k, i ≤ k → k < i + n → isSpace (b.getD k 0) = true) → ∃ o', Toks b (i + n) j o' := by
@@ -210,7 +210,7 @@ theorem unq_progress (b : Bytes) {s k : Nat} {o : Bytes} (h : Toks b s k o) :
 
 /-- unquoting a complete token run -/
 theorem unq_toks (b : Bytes) {s k : Nat} {o : Bytes} (h : Toks b s k o) (fuel : Nat) (log : Log)
-    (hf : k - s + 1 < fuel) :
+    (hf : k - s < fuel) :
     ∃ log', unq b fuel s k [] log = (.ok o, log') ∧ (∀ N, k ≤ N + 1 → LogLe log N → LogLe log' N) := by
   obtain ⟨fuel', log', h1, h2, h3⟩ := unq_progress b h fuel k [] log (by omega) (by omega)
   refine ⟨log', ?_, h3⟩
@@ -221,7 +221,7 @@ theorem unq_toks (b : Bytes) {s k : Nat} {o : Bytes} (h : Toks b s k o) (fuel : 
 
 /-- unquoting when the trailing trim cut a backslash pair in two: the loop reads `vend[0]` -/
 theorem unq_dangling (b : Bytes) {s v : Nat} {o : Bytes} (h : Toks b s (v - 1) o) (hv : s + 1 ≤ v)
-    (hb : b.getD (v - 1) 0 = cBS) (fuel : Nat) (log : Log) (hf : v - s + 2 < fuel) :
+    (hb : b.getD (v - 1) 0 = cBS) (fuel : Nat) (log : Log) (hf : v - s < fuel) :
     ∃ log', unq b fuel s v [] log = (.ok (o ++ [b.getD v 0]), log') ∧
       (∀ N, v ≤ N → LogLe log N → LogLe log' N) := by
   have := h.le
@@ -242,5 +242,53 @@ theorem unq_dangling (b : Bytes) {s v : Nat} {o : Bytes} (h : Toks b s (v - 1) o
       · intro N hN hl
         have := h3 N (by omega) hl
         simp [this]; omega
+
+end UsualProofs.C13
+
+namespace UsualProofs.C13
+open Usual.C13
+
+/-- `parse_value` on a range the scanner has accepted: stays inside the NUL-terminated block and
+    terminates (no fuel exhaustion in the model) -/
+theorem parseValue_safe (b : Bytes) (N : Nat) (hNb : N < b.length) {val vend : Nat} {o : Bytes}
+    (h : Toks b val vend o) (hv : vend ≤ N) (log : Log) (hl : LogLe log N) :
+    (parseValue b val vend log).1 ≠ .oof ∧ LogLe (parseValue b val vend log).2 N := by
+  have hle := h.le
+  unfold parseValue
+  obtain ⟨l1, l2, l3, l4, l5⟩ := trimL_spec b (vend - val) val vend log hle (by omega)
+  generalize trimL b (vend - val) val vend log = tl at l1 l2 l3 l4 l5
+  obtain ⟨val1, log1⟩ := tl
+  simp only at l1 l2 l3 l4 l5 ⊢
+  obtain ⟨r1, r2, r3, r4, r5⟩ := trimR_spec b (vend - val1) val1 vend log1 l2 (by omega)
+  generalize trimR b (vend - val1) val1 vend log1 = tr at r1 r2 r3 r4 r5
+  obtain ⟨vend1, log2⟩ := tr
+  simp only at r1 r2 r3 r4 r5 ⊢
+  have hl1 : LogLe log1 N := l5 N (by omega) hl
+  have hl2 : LogLe log2 N := r5 N (by omega) hl1
+  obtain ⟨o1, t1⟩ := Toks.drop_spaces (val1 - val) val vend o h (by omega)
+    (fun k a c => l3 k a (by omega))
+  rw [show val + (val1 - val) = val1 by omega] at t1
+  have ts : TrimSt b val1 vend1 :=
+    TrimSt.spaces (Or.inl ⟨o1, t1⟩) (vend - vend1) vend1 (by omega) r1 r3
+  by_cases he : val1 = vend1
+  · simp only [he, ↓reduceIte]
+    exact ⟨by simp, hl2⟩
+  · simp only [he, ↓reduceIte]
+    have hl3 : LogLe (if vend1 - val1 = 4 then (val1 + 3) :: (val1 + 2) :: (val1 + 1) :: val1 :: log2 else log2) N := by
+      split
+      · simp [hl2]; omega
+      · exact hl2
+    generalize (if vend1 - val1 = 4 then (val1 + 3) :: (val1 + 2) :: (val1 + 1) :: val1 :: log2 else log2) = log3 at hl3 ⊢
+    by_cases hnull : vend1 - val1 = 4 ∧ isNullWord (slice b val1 vend1) = true
+    · simp only [hnull, and_self, ↓reduceIte]
+      exact ⟨by simp, hl3⟩
+    · simp only [hnull, ↓reduceIte]
+      rcases ts with ⟨o2, t2⟩ | ⟨o2, hge, t2, hb, hz⟩
+      · obtain ⟨log', hu, hb'⟩ := unq_toks b t2 (b.length + 1) log3 (by omega)
+        rw [hu]
+        exact ⟨by simp, hb' N (by omega) hl3⟩
+      · obtain ⟨log', hu, hb'⟩ := unq_dangling b t2 (by omega) hb (b.length + 1) log3 (by omega)
+        rw [hu]
+        exact ⟨by simp, hb' N (by omega) hl3⟩
 
 end UsualProofs.C13
